@@ -179,20 +179,20 @@ def idxPut : List (Pair × List (LTerm × Rat)) → Pair → List (LTerm × Rat)
   | [], _, _ => []
   | e :: r, p, m => if pairEq e.1 p then (e.1, m) :: r else e :: idxPut r p m
 
-def queAdd (que : List (Nat × List Pair)) (n : Nat) (p : Pair) : List (Nat × List Pair) :=
-  if que.any (fun e => e.1 = n) then
-    que.map (fun e => if e.1 = n then (e.1, if e.2.any (pairEq p) then e.2 else e.2 ++ [p]) else e)
-  else que ++ [(n, [p])]
+def queAdd : List (Nat × List Pair) → Nat → Pair → List (Nat × List Pair)
+  | [], n, p => [(n, [p])]
+  | e :: r, n, p =>
+    if e.1 = n then (e.1, if e.2.any (pairEq p) then e.2 else e.2 ++ [p]) :: r else e :: queAdd r n p
 
 /-- `que[n].remove(pair)`; `del que[n]` when it becomes empty; `none` = `KeyError` -/
-def queRemove (que : List (Nat × List Pair)) (n : Nat) (p : Pair) : Option (List (Nat × List Pair)) :=
-  match que.find? (fun e => e.1 = n) with
-  | none => none
-  | some e =>
-    if e.2.any (pairEq p) then
-      let rest := e.2.filter (fun q => !pairEq q p)
-      some (if rest.isEmpty then que.filter (fun e => e.1 ≠ n) else que.map (fun e => if e.1 = n then (n, rest) else e))
-    else none
+def queRemove : List (Nat × List Pair) → Nat → Pair → Option (List (Nat × List Pair))
+  | [], _, _ => none
+  | e :: r, n, p =>
+    if e.1 = n then
+      (if e.2.any (pairEq p) then
+        some (if (e.2.filter (fun q => !pairEq q p)).isEmpty then r else (e.1, e.2.filter (fun q => !pairEq q p)) :: r)
+       else none)
+    else (queRemove r n p).map (fun r' => e :: r')
 
 /-- `_decrement_count(idx, que, pair)` -/
 def decrementCount (s : BK) (p : Pair) : Option BK :=
